@@ -3,8 +3,12 @@ import sys
 
 import numpy as np
 
+import dask
+
+dask.config.set(scheduler="synchronous")  # tiny arrays: threads only add overhead (scheduler independence is C01's subject)
+
 from common import (Ctx, LeanDriver, Property, bool_s, dyadic, err_kind, list_s, listlist_s, rat_s, run_property)
-from msd_trace import Tracer, entry_s, tagged_potential_array, tagged_waves
+from msd_trace import Tracer, entry_s, expected_ids, tagged_potential_array, tagged_waves
 
 
 # ----------------------------------------------------------------------------- unit functions of the implementation
@@ -101,6 +105,7 @@ def trace_case(rng, weird=False):
     pot = rng.choice(["array", "array", "crystal"]) if not ens else "array"
     reps = rng.randint(1, 3) if pot == "crystal" else 1
     return dict(n=n, ncfg=ncfg, ens=ens, spec=spec, pot=pot, reps=reps, batch=rng.choice([[], [], [2]]),
+                recip=rng.random() < 0.4, algorithm=rng.choice(["fourier", "fourier", "realspace"]),
                 thickness=[dyadic(rng, 0.25, 2, 2) or 0.5 for _ in range(n)])
 
 
@@ -123,10 +128,14 @@ def run_traced(c):
 
     pot, configs = build_tagged(c)
     tr = Tracer()
-    w = tagged_waves(4, tuple(c["batch"]))
+    w = tagged_waves(4, tuple(c["batch"]), recip=bool(c.get("recip")))
+    kw = {}
+    if c.get("algorithm") == "realspace":
+        from abtem.multislice import RealSpaceMultislice
+        kw["algorithm"] = RealSpaceMultislice()
     try:
         with tr.patched():
-            out = multislice_and_detect(w, pot, [WavesDetector()])
+            out = multislice_and_detect(w, pot, [WavesDetector()], **kw)
         ens_shape, hs = tr.decode(out[0].array)
         nb = int(np.prod(c["batch"])) if c["batch"] else 1
         shape = ens_shape[: len(ens_shape) - len(c["batch"])]
@@ -169,7 +178,8 @@ def gen_numeric(ctx: Ctx, frozen=False, single=False):
     nfp = rng.randint(1, MAX_CONFIGS) if frozen and pot != "crystal" else 0
     if pot == "array" and nfp > 1:
         nfp = 1  # eager build of a multi-configuration ensemble is C10's subject (DESIGN §7 F2), not this property's
-    return dict(thickness=thickness, atoms=atoms, spec=spec, builder=builder, det=det, scan=scan,
+    return dict(entry=rng.choice(["builder", "builder", "real", "reciprocal"]),
+                thickness=thickness, atoms=atoms, spec=spec, builder=builder, det=det, scan=scan,
                 gpts=rng.choice([8, 12, 16]), pot=pot, lazy=rng.random() < 0.4, nfp=nfp, seed=rng.randint(0, 10 ** 6))
 
 
@@ -202,16 +212,28 @@ def _detector(c):
             "flexible": abtem.FlexibleAnnularDetector(step_size=10)}[c["det"]]
 
 
-def _run(c, potential, lazy=False):
+def _run(c, potential, lazy=False, entry=None):
+    """one simulation; `entry`: the incident waves reach multislice_and_detect through the builder API or as a Waves object
+    handed over in real / reciprocal space"""
     import abtem
 
     kw = dict(energy=100e3, extent=4.0, gpts=c["gpts"])
     det = _detector(c)
-    if c["builder"] == "plane":
-        r = abtem.PlaneWave(**kw).multislice(potential, detectors=det, lazy=lazy)
+    entry = c.get("entry", "builder") if entry is None else entry
+    scan = abtem.CustomScan(np.array(c["scan"])) if c["builder"] == "probe" else None
+    if entry == "builder":
+        if c["builder"] == "plane":
+            r = abtem.PlaneWave(**kw).multislice(potential, detectors=det, lazy=lazy)
+        else:
+            r = abtem.Probe(semiangle_cutoff=30, **kw).multislice(potential, scan=scan, detectors=det, lazy=lazy)
     else:
-        r = abtem.Probe(semiangle_cutoff=30, **kw).multislice(potential, scan=abtem.CustomScan(np.array(c["scan"])),
-                                                              detectors=det, lazy=lazy)
+        w = abtem.PlaneWave(**kw).build(lazy=False) if c["builder"] == "plane" else \
+            abtem.Probe(semiangle_cutoff=30, **kw).build(scan=scan, lazy=False)
+        if entry == "reciprocal":
+            w = w.ensure_reciprocal_space()
+        if lazy:
+            w = w.ensure_lazy()
+        r = w.multislice(potential, detectors=det)
     return r.compute(progress_bar=False) if lazy else r
 
 
@@ -298,7 +320,7 @@ class C07(Property):
             c = trace_case(rng, weird=(i % 5 == 4))
             pot, configs, text = run_traced(c)
             add("multislice_and_detect(traced)", f"msd {bool_s(c['ens'])} {list_s(int(p) for p in pot.exit_planes)} "
-                                                 f"{pot.num_slices} {listlist_s(configs)}", text, c)
+                                                 f"{pot.num_slices} {listlist_s(expected_ids(configs, c['algorithm']))} {bool_s(c['recip'])}", text, c)
             ctx.count(f"trace:{c['pot']}:ens={c['ens']}:ncfg={c['ncfg']}:spec={'none' if c['spec'] is None else type(c['spec']).__name__}")
             ctx.traces += 1
         outs = drv.query(lines)
@@ -361,7 +383,7 @@ class C07(Property):
                     key = "entrance-plane-neq-incident-wave"
                 else:
                     trunc = PotentialArray(full.array[: p + 1], slice_thickness=thick_all[: p + 1], extent=4.0)
-                    exp = np.asarray(_run(c, trunc).array)
+                    exp = np.asarray(_run(c, trunc, entry="builder").array)
                     key = "exit-plane-neq-truncated-run" if p < nslices - 1 else "last-plane-neq-full-run"
                     if len(planes) == 1 and nfp:
                         key = "single-explicit-plane-with-ensemble-neq-truncated-run" if p < nslices - 1 else key
@@ -386,7 +408,7 @@ class C07(Property):
                 self.oracle(ctx, c)
             except Exception as e:  # noqa
                 ctx.violation("thickness-series-run-raises:" + type(e).__name__, c, {"error": f"{type(e).__name__}: {e}"[:300]})
-            ctx.count(f"numeric:{c['pot']}:{c['builder']}:{c['det']}:{'lazy' if c['lazy'] else 'eager'}")
+            ctx.count(f"numeric:{c['pot']}:{c['builder']}:{c['det']}:{'lazy' if c['lazy'] else 'eager'}:entry={c['entry']}")
             ctx.case(c, nontrivial=c["spec"] is not None)
 
     def replay(self, ctx: Ctx, case):
